@@ -1,6 +1,8 @@
 //! Drivers for C18 (is_equal & co), C19 (pair selection), the C14 panic
 //! exactness sweep and the C05 mismatched-needle sweep.
 
+#[allow(unused_imports)]
+use crate::prelude::*;
 use crate::case::{Api, Be, Fam};
 use crate::exec::vector_backends;
 use crate::gen;
